@@ -2798,8 +2798,9 @@ namespace bloch::compiler {
 
         auto typesCompatible =
             isAssignableType(elemType, valType) ||
-            matchesPrimitive(elemType.value, valType.value) ||
-            (elemType.value == ValueType::Int && valType.value == ValueType::Bit);
+            (!nonPrimitiveIntoPrimitive(elemType, valType) &&
+             (matchesPrimitive(elemType.value, valType.value) ||
+              (elemType.value == ValueType::Int && valType.value == ValueType::Bit)));
 
         if (!typesCompatible) {
             throw BlochError(ErrorCategory::Semantic, node.line, node.column,
